@@ -206,3 +206,92 @@ def loopLM {α σ ρ : Type} (l : List α) (f : Int → α → σ → Option (Ct
   loopLFromM f 0 l s
 
 end Go
+
+/-! ### state, atomics, effects, oracles (the EFFECT/STATE discipline of tools/go2lean; see translate.go)
+
+  A function that does more than compute a value is translated in *effect mode*.  Its Lean value is a tuple
+
+      (receiver after the call)?  ×  results…  ×  List Go.Effect  ×  (unused oracle values)?
+
+  * A method on `*T` that writes fields of its receiver takes the receiver as a value and returns the updated
+    value first (state passing; the translator rejects every use of the receiver that could alias it).
+  * A field of type `atomic.Uint32/Uint64/Int32/Int64/Bool` is a plain field.  `.Load()`, `.Store(v)`, `.Add(d)`,
+    `.Swap(v)`, `.CompareAndSwap(o, n)` read / write it with the SEQUENTIAL meaning, and each operation also
+    appends `Effect.atomic "<Type>.<field>" "<Op>" [operands…]` to the trace.  The sequential meaning is the
+    meaning of ONE goroutine's code when no other goroutine writes the location between two of its own atomic
+    operations; what other goroutines do in between is the business of the hand-written interleaving model,
+    whose atomic actions the trace lets a theorem line up with the code.
+  * A call that is not translated — a method of an interface value, a function-valued field, a repository
+    function listed in the translator's `asEffect` table, a channel send — appends `Effect.call "<callee>" args`
+    (`Effect.send "<Type>.<chan field>" [v]`) to the trace.  Arguments are the translated values
+    (a struct contributes its leaves in field order, `T.toVals`); an argument outside the subset is `Val.opaque`.
+  * When the RESULT of such a call is used, the call is still recorded in the trace and its result is the next
+    value of the *oracle list*, an extra parameter `orc_ : List Go.Val` of the generated function that is
+    consumed in call order (`Go.orc`); a missing or ill-typed oracle value reads as the zero value.
+  * Callees listed in the translator's ignore table (loggers, mutex Lock/Unlock, metrics) leave no trace. -/
+namespace Go
+
+/-- A value that crosses the boundary of the translated code (effect argument / oracle result). -/
+inductive Val where
+  | int (i : Int)
+  | bool (b : Bool)
+  | bytes (b : Bytes)
+  | err (e : Err)
+  | opaque
+  deriving DecidableEq, Repr, Inhabited
+
+def Val.asInt : Val → Int
+  | .int i => i
+  | _ => 0
+def Val.asBool : Val → Bool
+  | .bool b => b
+  | _ => false
+def Val.asBytes : Val → Bytes
+  | .bytes b => b
+  | _ => []
+def Val.asErr : Val → Err
+  | .err e => e
+  | _ => none
+
+inductive Effect where
+  /-- `obj.Op(args)` on an atomic field (`obj` = "<Type>.<field>") -/
+  | atomic (obj op : String) (args : List Val)
+  /-- a call that is not translated (`callee` = "<pkg>.<Func>", "<pkg>.<Type>.<Method or func field>") -/
+  | call (callee : String) (args : List Val)
+  /-- `ch <- v` (`chan` = "<Type>.<field>") -/
+  | send (chan : String) (args : List Val)
+  deriving DecidableEq, Repr, Inhabited
+
+/-- the next oracle value (the result of the next untranslated call whose result is used) -/
+def orc (o : List Val) : Val := o.headD .opaque
+
+/-- `for init; cond; post { body }` whose trip count is not evident: at most `fuel` iterations are unrolled;
+    `none` = a panic inside the loop, OR the loop was still running after `fuel` iterations (no claim is made
+    about such runs: every tie theorem proves its function returns `some _`).  `continue` runs `post`. -/
+def loopWhileM {σ ρ : Type} (cond : σ → Option (Bool × σ)) (body : σ → Option (Ctl σ ρ)) (post : σ → Option σ) :
+    Nat → σ → Option (Except ρ σ)
+  | 0, _ => none
+  | fuel + 1, s =>
+    match cond s with
+    | none => none
+    | some (false, s1) => some (.ok s1)
+    | some (true, s1) =>
+      match body s1 with
+      | none => none
+      | some (.brk s2) => some (.ok s2)
+      | some (.ret r) => some (.error r)
+      | some (.next s2) =>
+        match post s2 with
+        | none => none
+        | some s3 => loopWhileM cond body post fuel s3
+
+end Go
+
+namespace Go
+/-- `fmt.Errorf("…%w…", e)` for an error VALUE `e`: the result is identified by what it wraps (by the format
+    when `e` is nil). -/
+def wrapErr (format : String) (e : Err) : Err :=
+  match e with
+  | some s => some s
+  | none => some format
+end Go
